@@ -5,7 +5,7 @@ open Lean Fsm
 namespace Drv
 
 def parseSnap (j : Json) : Except String Snap := do
-  return { st := (← parseStat j), ino := getNatD j "ino" 0, nlink := getNatD j "nlink" 1 }
+  return { st := (← parseStat j), ino := getNatD j "ino" 0, nlink := getNatD j "nlink" 1, sha := getHexD j "sha" }
 
 def verdictJ (pre : String) (v : SpecVerdict) : List (String × Json) :=
   [(pre, toJson v.ok), (pre ++ "_why", toJson v.why)]
